@@ -31,6 +31,8 @@ type c19Case struct {
 	TNil int `json:"typed_nil_pointer_elements,omitempty"`
 	// Log: every log level switched on and a live logger installed on the stack that is compacted
 	Log bool `json:"all_log_levels_live_logger,omitempty"`
+	// FIFO: the stack that is compacted is in FIFO mode (compaction has nothing to do with which end Pop takes)
+	FIFO bool `json:"fifo,omitempty"`
 }
 
 func (cs c19Case) pattern() string {
@@ -220,6 +222,9 @@ func c19Run(c *Ctx, cs c19Case, count bool) {
 		}
 	}
 	target := newStackKind(cs.Kind)
+	if cs.FIFO {
+		target.SetFIFO(true)
+	}
 	if cs.Neg {
 		target.SetNegativeIndices(true)
 	}
@@ -281,6 +286,10 @@ func c19Run(c *Ctx, cs c19Case, count bool) {
 	case "in-cond":
 		cd := stackage.Cond("kw", stackage.Eq, target)
 		recv = stackage.And().Push(stackage.List().Push("z"), cd)
+		parentWant = contents(recv)
+	case "in-read-only-cond": // the Condition is read-only, the Stack it holds is not: the Stack is compacted like any other
+		cd := stackage.Cond("kw", stackage.Eq, target).SetReadOnly(true)
+		recv = stackage.And().Push("p0", cd, stackage.List().Push("z"))
 		parentWant = contents(recv)
 	case "in-cond-only": // no sibling Stack: the parent is not "nesting" by IsNesting's definition
 		cd := stackage.Cond("kw", stackage.Eq, target)
@@ -459,16 +468,16 @@ func c19Cases(c *Ctx) []c19Case {
 					if (opt.neg || opt.fwd) && (lim != 0 || n > maxLen-2) {
 						continue
 					}
-					out = append(out, c19Case{n, mask, lim, opt.neg, opt.fwd, "top", "LIST", false, "", false, 0, false, 0, false})
+					out = append(out, c19Case{n, mask, lim, opt.neg, opt.fwd, "top", "LIST", false, "", false, 0, false, 0, false, false})
 					if mask != (1<<n)-1 && !opt.neg && !opt.fwd && (lim == 0 || lim == 3) && n <= nestLen+2 {
-						out = append(out, c19Case{n, mask, lim, false, false, "top", "LIST", true, "", false, 0, false, 0, false})
+						out = append(out, c19Case{n, mask, lim, false, false, "top", "LIST", true, "", false, 0, false, 0, false, false})
 					}
 				}
 				if n <= nestLen && (lim == 0 || lim == 3) {
 					for _, pl := range []string{"top-mutex", "top-decorated", "in-stack", "alias", "ptr-alias", "in-cond", "in-cond-only", "in-cond-alias", "deep", "in-stack-parent-options", "in-cond-nonesting-parent"} {
-						out = append(out, c19Case{n, mask, lim, false, false, pl, "AND", false, "", false, 0, false, 0, false})
+						out = append(out, c19Case{n, mask, lim, false, false, pl, "AND", false, "", false, 0, false, 0, false, false})
 						if mask != (1<<n)-1 && n <= 4 && lim == 0 {
-							out = append(out, c19Case{n, mask, lim, false, false, pl, "AND", true, "", false, 0, false, 0, false})
+							out = append(out, c19Case{n, mask, lim, false, false, pl, "AND", true, "", false, 0, false, 0, false, false})
 						}
 					}
 				}
@@ -516,6 +525,23 @@ func c19Cases(c *Ctx) []c19Case {
 				out = append(out, c19Case{Len: n, Mask: mask, Place: pl, Kind: "AND", ChildRO: true}, c19Case{Len: n, Mask: mask, Place: pl, Kind: "AND", ChildRO: true, Neg: true, Limit: 13})
 			}
 		}
+	}
+	// FIFO mode, with and without locking; a read-only Condition around a writable Stack
+	for n := 1; n <= 7; n++ {
+		for mask := 0; mask < 1<<n; mask++ {
+			for _, pl := range []string{"top", "top-mutex", "in-stack", "in-read-only-cond"} {
+				if pl != "top" && pl != "top-mutex" && n > nestLen {
+					continue
+				}
+				out = append(out, c19Case{Len: n, Mask: mask, Place: pl, Kind: "AND", FIFO: pl != "in-read-only-cond"})
+				if pl == "in-read-only-cond" {
+					out = append(out, c19Case{Len: n, Mask: mask, Place: pl, Kind: "AND", FIFO: true, Neg: true})
+				}
+			}
+		}
+	}
+	for _, long := range []string{"1,5x0,1", "2x1,5x0,9x1", "1,7x0,1,7x0,1"} {
+		out = append(out, c19Case{Place: "top-mutex", Kind: "LIST", Long: long, FIFO: true}, c19Case{Place: "in-read-only-cond", Kind: "AND", Long: long})
 	}
 	// every log level on, a live logger behind it (alone each is covered by the decorated placements)
 	for n := 1; n <= 7; n++ {
@@ -574,7 +600,7 @@ func c19Cases(c *Ctx) []c19Case {
 				if pl == "top" {
 					kind = "LIST"
 				}
-				out = append(out, c19Case{0, 0, lim, false, false, pl, kind, false, long, false, 0, false, 0, false})
+				out = append(out, c19Case{0, 0, lim, false, false, pl, kind, false, long, false, 0, false, 0, false, false})
 			}
 		}
 	}
